@@ -373,7 +373,10 @@ class NetworkGraph(AbstractBaseIR):
             stds += v
             nodes.append(source)
 
-        # check whether edge delays have to be implemented or can be ignored
+        # check whether edge delays have to be implemented or can be ignored: a delay of at most one integration step
+        # is neglected, whatever other delays leave the same variable
+        means = [0 if (("int" in str(type(d)) and d <= 1) or ("float" in str(type(d)) and d <= self.step_size)) else d
+                 for d in means]
         max_delay = np.max(means)
         add_delay = ("int" in str(type(max_delay)) and max_delay > 1) or \
                     ("float" in str(type(max_delay)) and max_delay > self.step_size)
